@@ -7,3 +7,8 @@ package gast
 //@ func CommentNode.Range props C18,C14 pure
 //@ ensures result.StartLine >= 0 && result.StartCol >= 0 && result.EndLine >= 0 && result.EndCol >= 0
 //@ ensures implies(c.Position.StartLine >= 0, result.StartLine == c.Position.StartLine) && implies(c.Position.StartCol >= 0, result.StartCol == c.Position.StartCol) && implies(c.Position.EndLine >= 0, result.EndLine == c.Position.EndLine) && implies(c.Position.EndCol >= 0, result.EndCol == c.Position.EndCol)
+
+// whether a name denotes a type of Go's universe scope: a function of the name (go/types is outside the subset)
+//@ ufunc universeType(name string) bool
+//@ func IsUniverseType props C10,C14 trusted
+//@ ensures result == universeType(typeName)
